@@ -98,6 +98,7 @@ class IS:
         self.params = {a.arg for a in fn.args.args}
         self.loopvars: list[tuple] = []                      # (name, tag) of enclosing loops
         self.node_tags: dict = {}                            # id(expr node) -> tag at its (last) evaluation
+        self.sort_req: dict[str, list] = {}                  # param -> [(sort 'axis'|'dim', node)]
         self.nobs = 0
 
     # ------------------------------------------------------------------ reporting
@@ -250,6 +251,10 @@ class IS:
     def layout_axis_to_dim(self, lay, a):
         """dimension carried by axis tag `a` of layout `lay`"""
         order = lay[1]
+        if isinstance(a, tuple) and a[0] == "param":
+            return ("dim_of_axis", a[1])
+        if isinstance(a, tuple) and a[0] == "axis" and isinstance(a[1], str):
+            return ("dim_of_axis", a[1])
         if isinstance(a, tuple):
             if a[0] == "axis_of":
                 return a[1]
@@ -281,7 +286,13 @@ class IS:
                 d = self.layout_axis_to_dim(lay, idx)
                 if isinstance(idx, tuple) and idx[0] in ("lit", "axis", "axis_of"):
                     self.ob("C-sort", e, True, f"`{src(e.value)}` subscripted by a layout axis", construct=src(e))
-                if d is None or isinstance(d, tuple):
+                if isinstance(idx, tuple) and idx[0] == "param":
+                    self.sort_req.setdefault(idx[1], []).append(("axis", e))
+                if isinstance(idx, tuple) and idx[0] == "dim_of_axis":
+                    self.ob("C-sort", e, False, f"`{src(e.value)}` is ordered by layout axis but is subscripted by `{src(e.slice)}`, "
+                            "which is a dimension number (dims_order[...] of an axis)")
+                    return OTHER
+                if d is None or (isinstance(d, tuple) and d[0] != "dim_of_axis"):
                     return OTHER
                 if attr == "ranks":
                     return ("rank", d)
@@ -298,9 +309,17 @@ class IS:
                     d = self.layout_axis_to_dim(lay, idx)
                     if isinstance(d, int):
                         return ("dim", d)
+                    if isinstance(d, tuple) and d[0] == "dim_of_axis":
+                        return ("dim", d)
                     return ("dim_at_value", idx[1])
+                if isinstance(idx, tuple) and idx[0] == "param":
+                    self.sort_req.setdefault(idx[1], []).append(("axis", e))
+                    return ("dim", ("dim_of_axis", idx[1]))
                 return OTHER
             if attr == "inv_dims_order":
+                if isinstance(idx, tuple) and idx[0] == "param":
+                    self.sort_req.setdefault(idx[1], []).append(("dim", e))
+                    return ("axis_of", ("param", idx[1]))
                 if isinstance(idx, tuple) and idx[0] in ("lit", "dim"):
                     d = idx[1]
                     order = lay[1]
@@ -321,6 +340,13 @@ class IS:
             idx = self.ev(e.slice)
             if isinstance(idx, tuple) and idx[0] in ("lit", "dim") and isinstance(idx[1], int) and -len(base) <= idx[1] < len(base):
                 return base[idx[1]]
+            if isinstance(idx, tuple) and idx[0] == "param":
+                self.sort_req.setdefault(idx[1], []).append(("dim", e))
+                d = ("param", idx[1])
+                return retag(base[0], d) if base else OTHER
+            if isinstance(idx, tuple) and idx[0] == "dim" and isinstance(idx[1], tuple):
+                self.ob("C-sort", e, True, f"`{src(e.value)}` (ordered by dimension) subscripted by a dimension number", construct=src(e))
+                return retag(base[0], idx[1]) if base else OTHER
             if isinstance(idx, tuple) and idx[0] in ("axis", "axis_of"):
                 self.ob("C-sort", e, False, f"`{src(e.value)}` is ordered by dimension but is subscripted by a layout axis `{src(e.slice)}`")
             return OTHER
@@ -665,6 +691,17 @@ class IS:
 
     def finish_params(self):
         """C-same-index: one parameter must not be required in two index spaces"""
+        for p, reqs in self.sort_req.items():
+            kinds = {k for k, _ in reqs}
+            if kinds == {"axis", "dim"}:
+                a = [n for k, n in reqs if k == "axis"][0]
+                d = [n for k, n in reqs if k == "dim"][0]
+                self.ob("C-sort", d, False, f"parameter `{p}` is used as a layout axis in `{src(a)[:50]}` and as a dimension number in "
+                        f"`{src(d)[:50]}`: the two only coincide for the identity ordering", construct=f"{p}: {src(a)[:40]} / {src(d)[:40]}")
+            else:
+                n = reqs[0][1]
+                self.ob("C-sort", n, True, f"parameter `{p}` is consistently a {'layout axis' if 'axis' in kinds else 'dimension number'}",
+                        construct=f"{p}: {sorted(kinds)}")
         for p, reqs in self.param_req.items():
             tags = {}
             for t, node, why in reqs:
@@ -772,6 +809,16 @@ class IS:
             if is_arr(tv) and is_arr(v):
                 self.broadcast([tv, v], st)
             # stores through a [:] into an attribute created by np.ndarray keep the attribute's windows
+
+
+def retag(t, d):
+    """the tag of DimList element 0 re-labelled for dimension d"""
+    if is_arr(t):
+        return arr(tuple((w[0], d) if w and w[0] in ("G", "L") else w for w in t[1]),
+                   (t[2][0], d) if t[2] is not None else None)
+    if isinstance(t, tuple) and t[0] == "size" and t[1]:
+        return ("size", (t[1][0], d))
+    return OTHER
 
 
 # names of standard layouts -> dims_order (filled from the literal dictionaries of setups.py / fullSimulation.py)
